@@ -71,7 +71,7 @@ class CHECK(Check):
         from .. import reglib
         from .c04 import gen_line
         for _ in range(400 if tier == "quick" else 8000):
-            regdefs = reglib.gen_regdefs(rng, same_window=True)
+            regdefs = reglib.gen_regdefs(rng, same_window=True, delim=rng.random() < 0.35)
             lines = [gen_line(rng, regdefs) for _ in range(rng.randint(0, 8))]
             lines = [l for l in lines if "nan" not in l.lower() and "inf" not in l.lower()]
             yield {"fam": "register", "kind": "readtwice", "regdefs": regdefs, "xs": [], "ys": None,
